@@ -6,4 +6,6 @@ pub mod util;
 
 pub mod c05;
 pub mod c15;
+pub mod c29;
+pub mod c40;
 pub mod c57;
